@@ -256,35 +256,64 @@ func IsGenerated(f *ast.File) bool {
 	return false
 }
 
+// funcPkgPath returns the package path an SSA function belongs to, also for
+// synthetic wrappers and instantiations (whose Pkg is nil).
+func funcPkgPath(f *ssa.Function) string {
+	for i := 0; f != nil && i < 10; i++ {
+		if f.Pkg != nil {
+			return f.Pkg.Pkg.Path()
+		}
+		if f.Parent() != nil {
+			f = f.Parent()
+			continue
+		}
+		if o := f.Origin(); o != nil && o != f {
+			f = o
+			continue
+		}
+		if obj := f.Object(); obj != nil && obj.Pkg() != nil {
+			return obj.Pkg().Path()
+		}
+		if r := f.Signature.Recv(); r != nil {
+			t := r.Type()
+			if p, ok := t.(*types.Pointer); ok {
+				t = p.Elem()
+			}
+			if n, ok := t.(*types.Named); ok && n.Obj().Pkg() != nil {
+				return n.Obj().Pkg().Path()
+			}
+		}
+		// bound method closures: "bound method wrapper for func (T).m"; use the free variable's type
+		if len(f.FreeVars) == 1 {
+			t := f.FreeVars[0].Type()
+			if p, ok := t.(*types.Pointer); ok {
+				t = p.Elem()
+			}
+			if n, ok := t.(*types.Named); ok && n.Obj().Pkg() != nil {
+				return n.Obj().Pkg().Path()
+			}
+		}
+		return ""
+	}
+	return ""
+}
+
 // InRepo reports whether an SSA function belongs to the analysed module.
 func InRepo(f *ssa.Function) bool {
 	if f == nil {
 		return false
 	}
-	p := f.Pkg
-	if p == nil && f.Parent() != nil {
-		return InRepo(f.Parent())
-	}
-	if p == nil {
-		if o := f.Origin(); o != nil && o != f {
-			return InRepo(o)
-		}
-		return false
-	}
-	path := p.Pkg.Path()
+	path := funcPkgPath(f)
 	return path == ModPath || strings.HasPrefix(path, ModPath+"/")
 }
 
 // PkgRel returns the module-relative package path of an SSA function ("" for
 // the root, "?" when outside the module).
 func PkgRel(f *ssa.Function) string {
-	for f != nil && f.Pkg == nil && f.Parent() != nil {
-		f = f.Parent()
-	}
-	if f == nil || f.Pkg == nil {
+	if f == nil {
 		return "?"
 	}
-	path := f.Pkg.Pkg.Path()
+	path := funcPkgPath(f)
 	if path == ModPath {
 		return ""
 	}
@@ -338,4 +367,10 @@ func (c *Ctx) FileOf(pos token.Pos) (*packages.Package, *ast.File) {
 // IsTestFile reports whether pos lies in a _test.go file.
 func (c *Ctx) IsTestFile(pos token.Pos) bool {
 	return strings.HasSuffix(c.Fset.Position(pos).Filename, "_test.go")
+}
+
+// IsGenerated2 reports whether the function lies in a generated file.
+func IsGenerated2(c *Ctx, f *ssa.Function) bool {
+	_, file := c.FileOf(f.Pos())
+	return file != nil && IsGenerated(file)
 }
